@@ -13,9 +13,9 @@ use std::sync::Mutex;
 use vmodel::par::par_for;
 use vmodel::{Reporter, Tier};
 
-const NAMES: [&str; 4] = ["en", "fr", "de", "en-US"];
+const NAMES: [&str; 5] = ["en", "fr", "de", "en-US", "pt-BR"];
 fn loc(i: usize) -> Locale {
-    [Locale::en, Locale::fr, Locale::de, Locale::en_US][i]
+    [Locale::en, Locale::fr, Locale::de, Locale::en_US, Locale::pt_BR][i]
 }
 fn idx(l: Locale) -> usize {
     NAMES.iter().position(|n| *n == l.as_str()).unwrap()
